@@ -13,7 +13,7 @@ from .common import log
 from .gamma import Gamma
 
 NANI = 1 << 29  # integer code of NaN / undefined for the scaled values
-FAMS = [("ints", "int"), ("shift", "int"), ("str", "int"), ("npint", "npint"), ("descset", "int"), ("collide", "int")]
+FAMS = [("ints", "int"), ("shift", "int"), ("str", "int"), ("npint", "npint"), ("descset", "int"), ("collide", "int"), ("bigint", "int")]
 
 
 def scaled(x):
